@@ -252,6 +252,38 @@ func (c *Conc) helperText(tok, rfile string) (name string, decls []string) {
 	}
 }
 
+// ---- the root resolver struct --------------------------------------------------
+//
+// rootPool: what users make of `type Resolver struct{}` (the file notice of the
+// follow-schema layout says "add any dependencies you require here"):
+//
+//	rf  fields added: sync primitives, maps, func-typed fields, anonymous struct fields, tags, trailing
+//	    comments with braces, the one-line form
+//	re  embedded types (values, pointers, an interface) and a doc comment attached to the declaration
+//
+// The texts reference only the packages sync, fmt and context (SetRoot adds the imports).
+var rootPool = map[string][]string{
+	"rf": {
+		"type Resolver struct {\n\tmu    sync.Mutex\n\tstore map[string]int // by id, guarded by mu }\n\tLimit int `json:\"limit\"`\n}",
+		"type Resolver struct {\n\tDB   map[string][]string\n\thook func(ctx context.Context, id string) (string, error)\n\topts struct {\n\t\tDebug bool\n\t\tDepth int // {\n\t}\n}",
+		"type Resolver struct{ cache, index map[string]int }",
+		"type Resolver struct {\n\tнаселение map[string]int // größe — 世界\n\tonce      sync.Once\n}",
+	},
+	"re": {
+		"// Resolver is the root of the resolver tree; it carries what the\n// resolvers depend on { }.\ntype Resolver struct {\n\tsync.RWMutex\n\tfmt.Stringer\n\tname string\n}",
+		"// Resolver wires the app's dependencies.\n//\n// Deprecated: nothing in here is generated.\ntype Resolver struct {\n\t*sync.WaitGroup // embedded pointer\n\tcontext.Context\n}",
+		"/* Resolver: block doc comment */\ntype Resolver struct {\n\tsync.Mutex `json:\"-\"`\n}",
+	},
+}
+
+func (c *Conc) rootText(tok string) string {
+	p := rootPool[tok]
+	if len(p) == 0 {
+		panic("unknown root token " + tok)
+	}
+	return p[pick(c.Seed, len(p), "root", tok)]
+}
+
 // ---- names -------------------------------------------------------------------
 
 func splitPair(p string) (typ, field string) {
